@@ -29,7 +29,7 @@ fn check_fields(info: &Qcow2Info, cb: u32, order: u32, bs: u8, l2sb: u8, rbsb: u
 }
 
 // @harness c09_info_custom
-// @props C09 C14 C15
+// @props C09 C14 C15 C10
 // @tier quick
 // @cost 13
 // @timeout 600
